@@ -30,7 +30,8 @@ ASSUMPTIONS = [
 ]
 
 SUFFIX_CLASSES = ("r1", "r2", "r7", "r8", "r15", "r16", "r17", "r64", "zeros", "ones", "same_unit", "other_unit", "tlv_like", "lv_like",
-                  "seg8", "seg16", "file_data_like", "crc_of_whole", "constants")
+                  "seg8", "seg16", "file_data_like", "crc_of_whole", "constants",
+                  "tlv_fs_request", "tlv_fs_response", "tlv_msg_to_user", "tlv_fault_handler", "tlv_flow_label", "tlv_entity_id")
 
 
 def make_suffix(r, cls, unit: bytes, other: bytes) -> bytes:
@@ -54,6 +55,11 @@ def make_suffix(r, cls, unit: bytes, other: bytes) -> bytes:
         return r.randbytes(16 * r.randrange(1, 3))
     if cls == "file_data_like":
         return bytes(range(33, 33 + r.randrange(5, 40)))
+    if cls.startswith("tlv_") and cls != "tlv_like":
+        # a well-formed TLV of one particular type first (what an EOF / Finished / Metadata PDU would accept as its own next item)
+        t = {"tlv_fs_request": 0, "tlv_fs_response": 1, "tlv_msg_to_user": 2, "tlv_fault_handler": 4, "tlv_flow_label": 5, "tlv_entity_id": 6}[cls]
+        val = {0: R.fs_request_value(1, b"a.txt"), 1: R.fs_response_value(1, 0, b"a.txt", b"", b""), 2: b"hello", 4: bytes([0x41]), 5: b"lbl", 6: r.randbytes(r.choice((1, 2, 4, 8)))}[t]
+        return R.tlv(t, val) + r.randbytes(r.choice((0, 0, 3)))
     if cls == "constants":
         from spverif.core.util import harvested_constants
         cs = harvested_constants()
